@@ -8,15 +8,21 @@ catchable error, numbers compare numerically (an int/float pair as floats), stri
 bytewise (`按字典序`), `+` and `.` concatenate strings, `===` compares kind and value,
 `<=>` is −1/0/1 according to `<` and `>`, `&&`/`||`/`!`/`(bool)` use one notion of truthiness.
 
-`eval` is partial: `none` = outside the documented domain (mixed string/number operands, bool or
-null in arithmetic, ordering of bool/null, arrays and objects, mixed int/float `%`, …). On such
-operands only the coherence laws and the no-crash clause are claimed.
+`eval` is partial: `none` = outside the documented domain (mixed string/number operands or bool /
+null in arithmetic, arrays and objects, mixed int/float `%`, …). On such operands only the coherence
+laws and the no-crash clause are claimed.
+
+Comparison of operands of different kinds follows the PHP-8 table (the rule `data.LooseCompare`
+documents since `fix: … one loose comparison`), stated here the way the PHP manual does — *convert
+the pair, then compare like with like* (`conv`): `null` or `bool` against anything → both as booleans
+(`null` against a string → `""` against it); a number against a numeric string → two numbers, against
+any other string → two strings. Arrays / objects against numbers or strings stay undocumented.
 
 Written independently of the per-operator type switches of `Model.Ops`; only the datatypes
 (`Val`, `Prim`, `Outcome`, operator names) and the bytewise order `strLt` are shared.
 -/
 namespace Spec.Ops
-open Model.Ops (Val Prim Outcome ErrKind BinOp UnOp Str Res strLt)
+open Model.Ops (Val Prim Outcome ErrKind BinOp UnOp Str Res strLt decimal)
 
 section
 variable {F : Type} (P : Prim F)
@@ -101,18 +107,20 @@ def shift (left : Bool) (a b : Val F) : Option (Res F) :=
             else .val (.int (wrap (x.toInt / 2 ^ n.toInt.toNat))))
   | none => none
 
-/-- ordering of two values of the documented domain: (a < b, a ≤ b) -/
-def order (a b : Val F) : Option (Bool × Bool) :=
+/-- ordering of two values of the same kind (or an int/float pair): (a < b, a ≤ b); false < true -/
+def baseOrder (a b : Val F) : Option (Bool × Bool) :=
   match a, b with
   | .int x, .int y => some (decide (x.toInt < y.toInt), decide (x.toInt ≤ y.toInt))
   | .str x, .str y => some (strLt x y, !strLt y x)
+  | .bool x, .bool y => some (!x && y, !x || y)
+  | .null, .null => some (false, true)
   | _, _ =>
     match toF P a, toF P b with
     | some x, some y => some (P.lt x y, P.le x y)
     | _, _ => none
 
-/-- loose equality on the documented domain: same-kind scalars and int/float pairs -/
-def looseEq (a b : Val F) : Option Bool :=
+/-- equality of two values of the same kind (or an int/float pair) -/
+def baseEq (a b : Val F) : Option Bool :=
   match a, b with
   | .int x, .int y => some (x == y)
   | .str x, .str y => some (x == y)
@@ -122,6 +130,56 @@ def looseEq (a b : Val F) : Option Bool :=
     match toF P a, toF P b with
     | some x, some y => some (P.eq x y)
     | _, _ => none
+
+def isNullOrBool : Val F → Bool
+  | .null => true | .bool _ => true | _ => false
+
+def isIntVal : Val F → Bool
+  | .int _ => true | _ => false
+
+/-- a numeric string as a number: an integer when it is written as one and is compared with an
+integer, otherwise a float; `none` = not numeric -/
+def strNumber (withInt : Bool) (s : Str) : Option (Val F) :=
+  match (if withInt then P.atoi s else none) with
+  | some i => some (.int i)
+  | none => (P.parse s).map Val.float
+
+/-- a number written as a string -/
+def numString : Val F → Option Str
+  | .int i => some (decimal i)
+  | .float f => some (P.fmtG f)
+  | _ => none
+
+/-- number `n` against string `s`: (n, number of s) or (string of n, s) -/
+def convNumStr (n : Val F) (s : Str) : Option (Val F × Val F) :=
+  match strNumber P (isIntVal n) s with
+  | some v => some (n, v)
+  | none => (numString P n).map (fun t => (.str t, .str s))
+
+/-- the conversion of an operand pair before a loose comparison (PHP-8 table) -/
+def conv (a b : Val F) : Option (Val F × Val F) :=
+  match a, b with
+  | .null, .str s => some (.str [], .str s)
+  | .str s, .null => some (.str s, .str [])
+  | .int _, .str s => convNumStr P a s
+  | .float _, .str s => convNumStr P a s
+  | .str s, .int _ => (convNumStr P b s).map (fun p => (p.2, p.1))
+  | .str s, .float _ => (convNumStr P b s).map (fun p => (p.2, p.1))
+  | _, _ =>
+    if isNullOrBool a || isNullOrBool b then some (.bool (truthy P a), .bool (truthy P b))
+    else some (a, b)
+
+/-- ordering of two values: (a < b, a ≤ b) -/
+def order (a b : Val F) : Option (Bool × Bool) :=
+  match conv P a b with
+  | some (x, y) => baseOrder P x y
+  | none => none
+
+/-- loose equality -/
+def looseEq (a b : Val F) : Option Bool :=
+  match conv P a b with
+  | some (x, y) => baseEq P x y
+  | none => none
 
 def isScalar : Val F → Bool
   | .arr _ => false | .obj _ => false | .cls _ => false | _ => true
